@@ -169,6 +169,11 @@ func (ix *Index) indexReadyBlobs(ctx context.Context) {
 // ix.mu must be held.
 func (ix *Index) noteBlobIndexedLocked(br blob.Ref) {
 	for _, needer := range ix.neededBy[br] {
+		// The dependency is satisfied: forget the persisted edge too, or a
+		// restart would reload it and wait for br forever.
+		if err := ix.s.Delete(keyMissing.Key(needer, br)); err != nil {
+			log.Printf("index: error deleting satisfied missing edge %v -> %v: %v", needer, br, err)
+		}
 		newNeeds := blobsFilteringOut(ix.needs[needer], br)
 		if len(newNeeds) == 0 {
 			ix.readyReindex[needer] = true
